@@ -150,7 +150,7 @@ func startWorker() (*workerProc, error) {
 	return &workerProc{cmd: cmd, in: in, out: bufio.NewReaderSize(op, 1<<20)}, nil
 }
 
-// readLine waits for one answer line; a worker that stays silent for 5 min is stuck in a loop
+// readLine waits for one answer line; a worker that stays silent for 60 s (20 s after two such cases) is stuck in a loop
 func (w *workerProc) readLine() (string, error) {
 	type res struct {
 		s   string
@@ -162,9 +162,9 @@ func (w *workerProc) readLine() (string, error) {
 		ch <- res{s, err}
 	}()
 	mu.Lock()
-	limit := 15 * hangAfter
-	if workerHangs >= 3 {
-		limit = 3 * hangAfter // after three confirmed ones a silent worker is taken at face value sooner
+	limit := 3 * hangAfter
+	if workerHangs >= 2 {
+		limit = hangAfter // after two confirmed ones a silent worker is taken at face value sooner
 	}
 	mu.Unlock()
 	select {
@@ -318,12 +318,12 @@ func runBinary(bin, dir string, args []string) obs {
 	o := runBinaryT(bin, dir, args, hangAfter)
 	if o.Hang {
 		// The machine may be busy (a Go stack overflow has to touch 1 GB first): a run counts as a hang
-		// only if, run again with nothing else of ours running, it also exceeds 15x the bound.
-		// After three confirmed hangs further time-outs are taken at face value.
+		// only if, run again (retries are serialised), it also exceeds 3x the bound.
+		// After two confirmed hangs further time-outs are taken at face value.
 		retryMu.Lock()
 		defer retryMu.Unlock()
-		if hangsConfirmed < 3 {
-			o = runBinaryT(bin, dir, args, 15*hangAfter)
+		if hangsConfirmed < 2 {
+			o = runBinaryT(bin, dir, args, 3*hangAfter)
 			if o.Hang {
 				hangsConfirmed++
 			}
@@ -497,6 +497,7 @@ func run(repo, dir string, seed uint64, tier string) error {
 	}
 	var cases []*Case
 	cases = append(cases, regressionCases()...)
+	cases = append(cases, aimedCases()...)
 	cases = append(cases, buildCases("minimal", minimalBase, r, true, 0)...)
 	for k := 0; k < nRandom; k++ {
 		s := seed*1000003 + uint64(k)*7919 + 17
